@@ -12,6 +12,8 @@ pub mod csvw {
     #[verifier::external_body]
     pub fn stdout_sink() -> Sink { unimplemented!() }
     pub struct Writer { pub recs: Ghost<Seq<Seq<Seq<char>>>> }
+    /// ghost account of one call of a table writer: the records that the writer it opened has received when the call ends
+    pub tracked struct WLog { pub ghost recs: Seq<Seq<Seq<char>>> }
     pub open spec fn texts(v: Seq<String>) -> Seq<Seq<char>> { Seq::new(v.len(), |i: int| v[i]@) }
     /// a record given by reference or by value
     pub trait Record { spec fn rec(&self) -> Seq<Seq<char>>; }
